@@ -605,6 +605,20 @@ class Analysis(object):
         name = root.split(".")[-1]
         for s in sites:
             f = self.funcs[s["function"]]
+            # locals that carry something READ from the root (x = root.get(k), x = root[k], x = k in root): a write
+            # decided by them is a memo / accumulate pattern -- what an earlier run stored decides what this run does
+            tainted = set()
+            for n in ast.walk(f.node):
+                if isinstance(n, ast.Assign) and any((isinstance(x, ast.Name) and x.id == name) or
+                                                     (isinstance(x, ast.Attribute) and x.attr == name) for x in ast.walk(n.value)):
+                    for t in n.targets:
+                        if isinstance(t, ast.Name):
+                            tainted.add(t.id)
+            if tainted:
+                for n in ast.walk(f.node):
+                    if isinstance(n, ast.If) and any(isinstance(x, ast.Name) and x.id in tainted for x in ast.walk(n.test)):
+                        if any(getattr(c, "lineno", -1) == s["line"] for c in ast.walk(n)):
+                            return False
             for n in ast.walk(f.node):
                 if isinstance(n, ast.Assign) and n.lineno == s["line"]:
                     # value must not read the root; no enclosing `if` testing the root
@@ -719,6 +733,21 @@ def impure_sources(repo):
                 bad.append({"file": fn, "line": n.lineno, "what": "os.path.relpath without start (relative to the working directory)"})
             if isinstance(n, ast.Call) and isinstance(n.func, ast.Name) and n.func.id in ("id", "hash"):
                 bad.append({"file": fn, "line": n.lineno, "what": "%s() call" % n.func.id})
+            # a set handed to something that fixes an order: list(set(..)), tuple(..), sep.join(..), x.extend(..), enumerate(..)
+            if isinstance(n, ast.Call):
+                fname = n.func.id if isinstance(n.func, ast.Name) else n.func.attr if isinstance(n.func, ast.Attribute) else ""
+                if fname in ("list", "tuple", "join", "extend", "enumerate", "zip", "map", "filter", "iter", "next", "OrderedDict"):
+                    for a_ in n.args:
+                        top = a_
+                        if isinstance(top, ast.Call) and isinstance(top.func, ast.Name) and top.func.id == "sorted":
+                            continue
+                        isset = (isinstance(top, ast.Call) and isinstance(top.func, ast.Name) and top.func.id in ("set", "frozenset")) \
+                            or isinstance(top, (ast.Set, ast.SetComp)) \
+                            or (isinstance(top, ast.Call) and isinstance(top.func, ast.Attribute) and top.func.attr in (
+                                "intersection", "union", "difference", "symmetric_difference"))
+                        if isset:
+                            bad.append({"file": fn, "line": n.lineno,
+                                        "what": "set turned into a sequence (hash-seed dependent order): %s" % ast.unparse(n)[:60]})
             if isinstance(n, (ast.For, ast.comprehension)):
                 it = n.iter
                 if isinstance(it, ast.Call) and isinstance(it.func, ast.Name) and it.func.id == "sorted":
@@ -732,3 +761,91 @@ def impure_sources(repo):
                                     "what": "iteration in set order (hash-seed dependent): %s" % ast.unparse(it)[:60]})
                         break
     return bad
+
+
+def input_path_provenance(repo):
+    """E2 (working directory): every path main_with_args PROBES or READS (os.path.isfile / exists / isdir, open(..., 'r'))
+    is a command-line value (args.X / config.X), or os.path.join(<directory>, ...) -- a bare name taken from the YAML file
+    would be looked up in whatever directory the process happens to run in.
+    -> (bad, undecided): lists of {"line", "what"}"""
+    tree = ast.parse(open(os.path.join(repo, PKG, "main.py")).read())
+    fn = [n for n in tree.body if isinstance(n, ast.FunctionDef) and n.name == "main_with_args"]
+    if not fn:
+        return [], [{"line": 0, "what": "main_with_args not found"}]
+    fn = fn[0]
+    bad, und = [], []
+
+    def bindings(name):
+        """expressions a local name may be bound to; ("elem", e) = an element of the iterable e"""
+        out = []
+        for n in ast.walk(fn):
+            if isinstance(n, ast.Assign):
+                for t in n.targets:
+                    if isinstance(t, ast.Name) and t.id == name:
+                        out.append(("is", n.value))
+            elif isinstance(n, (ast.For, ast.comprehension)) and isinstance(n.target, ast.Name) and n.target.id == name:
+                out.append(("elem", n.iter))
+            elif isinstance(n, ast.Call) and isinstance(n.func, ast.Attribute) and isinstance(n.func.value, ast.Name) \
+                    and n.func.value.id == name and n.func.attr in ("append", "extend", "insert") and n.args:
+                out.append(("grow-" + n.func.attr, n.args[-1]))
+        return out
+
+    def anchored(e, depth=0, as_elem=False):
+        """True / False / None (unknown)"""
+        if depth > 6:
+            return None
+        if isinstance(e, ast.Attribute) and isinstance(e.value, ast.Name) and e.value.id in ("args", "config"):
+            return True
+        if isinstance(e, ast.Call) and ast.unparse(e.func) == "os.path.join" and len(e.args) >= 2:
+            return True
+        if isinstance(e, ast.Constant):
+            if e.value is None:
+                return True           # "not found": tested before use
+            return True if as_elem and isinstance(e.value, str) else None
+        if isinstance(e, (ast.Subscript, ast.Call)) and any(isinstance(x, ast.Name) and x.id == "allinput" for x in ast.walk(e)):
+            return False              # text from the YAML file: a file NAME, not a location
+        if isinstance(e, (ast.List, ast.Tuple)):
+            rs = [anchored(x, depth + 1) for x in e.elts]
+            return False if False in rs else (None if None in rs else True)
+        if isinstance(e, (ast.GeneratorExp, ast.ListComp)):
+            return anchored(e.elt, depth + 1)
+        if isinstance(e, ast.Call) and isinstance(e.func, ast.Attribute) and e.func.attr == "split":
+            return anchored(e.func.value, depth + 1)        # pieces of a command-line value
+        if isinstance(e, ast.Name):
+            bs = bindings(e.id)
+            if not bs:
+                return None
+            rs = []
+            for kind, v in bs:
+                if kind == "elem":
+                    # an element of an iterable: the iterable's elements must be anchored
+                    if isinstance(v, ast.Name):
+                        inner = [anchored(x, depth + 1, True) if k.startswith("grow") or k == "is" else anchored(x, depth + 1)
+                                 for k, x in bindings(v.id)]
+                        rs.append(False if False in inner else (None if (None in inner or not inner) else True))
+                    else:
+                        rs.append(anchored(v, depth + 1))
+                else:
+                    rs.append(anchored(v, depth + 1, as_elem))
+            return False if False in rs else (None if None in rs else True)
+        return None
+    for n in ast.walk(fn):
+        if not isinstance(n, ast.Call):
+            continue
+        f = ast.unparse(n.func)
+        arg = None
+        if f in ("os.path.isfile", "os.path.exists", "os.path.isdir") and n.args:
+            arg = n.args[0]
+        elif f == "open" and n.args and (len(n.args) < 2 or (isinstance(n.args[1], ast.Constant) and "r" in str(n.args[1].value))):
+            arg = n.args[0]
+        elif f in ("splicer.get_splicers", "splicer.get_splicer_based_on_suffix") and n.args:
+            arg = n.args[0]
+        if arg is None:
+            continue
+        r = anchored(arg)
+        what = "%s(%s)" % (f, ast.unparse(arg)[:50])
+        if r is False:
+            bad.append({"line": n.lineno, "what": what + ": the path may be a bare name from the input file (looked up in the working directory)"})
+        elif r is None:
+            und.append({"line": n.lineno, "what": what})
+    return bad, und
